@@ -221,3 +221,28 @@ pub fn attempts_of(
     }
     (p, n, k)
 }
+
+/// Generic-rule-type variant for Layer G (rule ids through `rid`).
+#[cfg(kani)]
+pub fn attempts_of_g<RR: RuleType>(
+    _map: &std::collections::BTreeMap<Option<RR>, (Vec<RR>, Vec<RR>, Vec<SpecialError>)>,
+    rid: fn(RR) -> u8,
+) -> (Vec<u8>, Vec<u8>) {
+    assert!(core::mem::size_of::<RR>() == core::mem::size_of::<crate::common::R>());
+    unsafe {
+        let slot = &*(&raw const T1_SLOT as *const (Vec<RR>, Vec<RR>, Vec<SpecialError>));
+        (slot.0.iter().map(|r| rid(*r)).collect(), slot.1.iter().map(|r| rid(*r)).collect())
+    }
+}
+#[cfg(not(kani))]
+pub fn attempts_of_g<RR: RuleType>(
+    map: &std::collections::BTreeMap<Option<RR>, (Vec<RR>, Vec<RR>, Vec<SpecialError>)>,
+    rid: fn(RR) -> u8,
+) -> (Vec<u8>, Vec<u8>) {
+    let (mut p, mut n) = (vec![], vec![]);
+    for (_, (a, b, _)) in map.iter() {
+        p.extend(a.iter().map(|r| rid(*r)));
+        n.extend(b.iter().map(|r| rid(*r)));
+    }
+    (p, n)
+}
